@@ -3,7 +3,7 @@
    interpreter (C13/Model.v) of the tables REGENERATED from
    odl/discr/diff_ops.py:finite_diff into Gen/FiniteDiff.v. *)
 From Coq Require Import QArith Qreals Reals Lia List Bool.
-From Verif Require Import Base.Num Base.Vec Base.VecR Lib.Axis Lib.AxisR C13.Syntax Gen.FiniteDiff C13.Model C13.ModelNd C13.Proofs C13.ProofsNd C13.ProofsLap C13.ProofsAffine Base.Transfer C13.Transfer.
+From Verif Require Import Base.Num Base.Vec Base.VecR Lib.Axis Lib.AxisR C13.Syntax Gen.FiniteDiff C13.Model C13.ModelNd C13.Proofs C13.ProofsNd C13.ProofsLap C13.ProofsAffine C13.ProofsLinear Base.Transfer C13.Transfer.
 Import ListNotations.
 Local Open Scope R_scope.
 
@@ -157,3 +157,18 @@ Theorem fd_executed_is_restriction :
   map Q2R (fd m p c dx f) = fd m p (Q2R c) (Q2R dx) (map Q2R f).
 Proof. exact fd_transfer. Qed.
 Print Assumptions fd_executed_is_restriction.
+
+(* T1: finite_diff is linear in (pad_const, array) jointly -- every method,
+   every one of the 10 padding modes, every length: the regenerated tables
+   contain only linear forms in the entries and the pad constant
+   ([tables_linear_true], a finite check over the regenerated file), hence
+     fd (a*c1 + c2) (a*f + h) = a * fd c1 f + fd c2 h.
+   With pad_const = 0 every mode is a linear operator (what is_linear reports;
+   with a nonzero constant the operator is affine), and applied to complex data
+   -- real coefficients acting on real and imaginary parts -- the result is the
+   finite difference of each part. *)
+Theorem fd_is_linear_in_constant_and_array :
+  forall (m : meth) (p : pmode) (a c1 c2 dx : R) (f h : list R), length f = length h ->
+  fd m p (a * c1 + c2) dx (lin a f h) = lin a (fd m p c1 dx f) (fd m p c2 dx h).
+Proof. exact fd_linear. Qed.
+Print Assumptions fd_is_linear_in_constant_and_array.
